@@ -71,6 +71,7 @@ type Contract struct {
 	Opaque     bool // call sites always use the contract
 	Calls      []CallClause
 	FrameProps []string
+	PureCallbacks bool
 }
 
 type CallClause struct {
@@ -283,7 +284,7 @@ func (db *SpecDB) LoadSpecFile(path string) error {
 			db.Axioms = append(db.Axioms, c)
 			db.Markers = append(db.Markers, "axiom "+c.Label)
 			cur = nil
-		case "requires", "ensures", "panics", "assigns", "loop", "property", "inline", "pure", "nosafety", "opaque", "params", "results", "calls", "frameprop", "trusted":
+		case "requires", "ensures", "panics", "assigns", "loop", "property", "inline", "pure", "nosafety", "opaque", "params", "results", "calls", "frameprop", "trusted", "purecallbacks":
 			if cur == nil {
 				return fail(fmt.Errorf("clause outside a contract"))
 			}
@@ -357,6 +358,10 @@ func (db *SpecDB) LoadSpecFile(path string) error {
 					return fail(err)
 				}
 				cur.Calls = append(cur.Calls, CallClause{Callee: strings.TrimSpace(f[0]), C: c})
+			case "purecallbacks":
+				// calls through function values whose identity is unknown (callbacks handed in by the caller)
+				// are pure, deterministic functions of their arguments
+				cur.PureCallbacks = true
 			case "trusted":
 				// the contract is assumed at call sites and the body is not verified against it
 				cur.Trusted = true
@@ -389,7 +394,7 @@ func (db *SpecDB) LoadSpecFile(path string) error {
 
 var keywords = map[string]bool{"macro": true, "functype": true, "global": true, "func": true, "extern": true, "method": true, "ufun": true, "fun": true, "axiom": true, "const": true,
 	"requires": true, "ensures": true, "panics": true, "assigns": true, "loop": true, "property": true, "inline": true, "pure": true,
-	"nosafety": true, "opaque": true, "params": true, "results": true, "calls": true, "frameprop": true, "trusted": true}
+	"nosafety": true, "opaque": true, "params": true, "results": true, "calls": true, "frameprop": true, "trusted": true, "purecallbacks": true}
 
 func startsWithKeyword(s string) bool {
 	kw, _ := splitKeyword(s)
